@@ -1420,6 +1420,11 @@ func runC15(c *Ctx) error {
 			}
 		}
 	}
+
+	// --- the same deviations through the exported wrappers (ot.COT, ot.ROT, malicious=true)
+	// and the static inventory of deferred result overwrites (c15wrap.go)
+	c15Wrappers(c)
+	c15Static(c)
 	return nil
 }
 
